@@ -1,5 +1,6 @@
 """C05 - guaranteed sends are eventually delivered, for every size, from both APIs."""
 import ast
+import re
 
 from engine.index import norm, walk_own
 from engine.cfg import cfg_of
@@ -218,7 +219,9 @@ def r3(ctx):
         ok = (sp, False) in conds or ("not %s" % sp, True) in conds
         # the only other condition allowed is the one-shot flag being clear
         others = [(t, p) for (t, p) in conds if t != sp]
-        ok = ok and all(t.startswith("self.") and p is False for (t, p) in others)
+        # (a bare flag attribute of the sender itself - not a test on connection state, which can starve the chain: a message
+        # skipped because "it is still parked in the resend queue" is in no queue at all once the timeout handler purges that entry)
+        ok = ok and all(re.fullmatch(r"self\.[A-Za-z_][A-Za-z0-9_]*", t) is not None and p is False for (t, p) in others)
         ctx.check(ok, "C05.R3", call, "re-queue happens on every failure until the first success", "failure branch is `not success` (and the one-shot flag clear)", witness=conds)
         ap = [c for c in calls_named(call, "append") if norm(c.func.value) == "self.conn.outgoing_messages"]
         ctx.check(len(ap) == 1 and ccfg.dominates(ccfg.node_of(pm).id, ccfg.node_of(ap[0]).id), "C05.R3", call, "re-queue appends to conn.outgoing_messages", "append")
